@@ -12,8 +12,10 @@ import (
 	"fmt"
 	"io"
 	"net/http"
+	"net/url"
 	"os"
 	"os/exec"
+	"runtime/debug"
 	"strings"
 	"sync"
 	"sync/atomic"
@@ -38,6 +40,7 @@ type crashCase struct {
 	Idle    *int64              `json:"idle,omitempty"`
 	Headers map[string][]string `json:"headers,omitempty"`
 	Prefix  *string             `json:"prefix,omitempty"`
+	Paths   []string            `json:"paths,omitempty"` // request paths to issue (default: one derived from the first pattern)
 	Comp    string              `json:"comp,omitempty"` // nil|empty
 }
 
@@ -143,9 +146,16 @@ func otherCases() []crashCase {
 		cs = append(cs, crashCase{Kind: "headers", Where: "construct", Routes: ok, Addr: "free", Headers: h})
 	}
 	cs = append(cs, crashCase{Kind: "headers", Where: "reload", Routes: ok, Addr: "free", Headers: hs[7]})
-	for _, p := range []string{"", "/", "api", "/api", "/api/", "//", "é", "/a b/", big, "{x}", "/x/{id}/", "\x00"} {
+	// wildcard prefixes x request paths: bare prefix (no trailing slash), the prefix, below it, shorter, sibling, root
+	for _, p := range []string{"", "/", "api", "/api", "/api/", "//", "//api/", "é", "/é/", "/a b/", big, "{x}", "/x/{id}/", "\x00"} {
 		p := p
-		cs = append(cs, crashCase{Kind: "wildcard", Where: "construct", Routes: []rt{{"w", "/"}}, Addr: "free", Prefix: &p})
+		for _, w := range []string{"construct", "reload"} {
+			if w == "reload" && len(p) > 8 {
+				continue
+			}
+			cs = append(cs, crashCase{Kind: "wildcard", Where: w, Routes: []rt{{"w", "/"}}, Addr: "free", Prefix: &p,
+				Paths: wildcardPaths(p)})
+		}
 	}
 	for _, c := range []string{"nil", "empty"} {
 		for _, w := range []string{"construct", "reload"} {
@@ -157,6 +167,32 @@ func otherCases() []crashCase {
 		cs = append(cs, crashCase{Kind: "callback", Where: "reload", Routes: ok, Addr: "free", Comp: c})
 	}
 	return cs
+}
+
+// wildcardPaths lists request paths around a wildcard prefix (normalised the way wildcard.New documents it).
+func wildcardPaths(prefix string) []string {
+	np := prefix
+	if np == "" {
+		np = "/"
+	}
+	if !strings.HasPrefix(np, "/") {
+		np = "/" + np
+	}
+	if np != "/" && !strings.HasSuffix(np, "/") {
+		np += "/"
+	}
+	if len(np) > 200 {
+		np = np[:200] + "/"
+	}
+	bare := strings.TrimSuffix(np, "/")
+	ps := []string{"/", np, np + "x", np + "x/y", bare + "x", "/zzz", "/é"}
+	if bare != "" {
+		ps = append(ps, bare)
+		if len(bare) > 1 {
+			ps = append(ps, bare[:len(bare)-1])
+		}
+	}
+	return ps
 }
 
 func randomRouteCases(r *prng.R, n int) []crashCase {
@@ -270,6 +306,9 @@ func runCrash() {
 				}
 			default:
 				res.Observed = "none"
+				if i := strings.Index(se.String(), "panic in request handling"); i >= 0 {
+					res.Stack = firstLines(se.String()[i:], 30)
+				}
 				for _, l := range strings.Split(outS, "\n") {
 					if strings.HasPrefix(l, "OUT ") {
 						f := strings.SplitN(l[4:], " ", 2)
@@ -404,10 +443,22 @@ func crashChild() {
 		return
 	}
 	var served atomic.Int64
+	var handlerPanic atomic.Value
 	mk := func(rs []rt) (httpserver.Routes, error) {
 		var out httpserver.Routes
 		for _, r := range rs {
-			var mws []httpserver.HandlerFunc
+			// first in the chain: notices a panic of any later middleware or of the handler ("request handling never
+			// panics"), records it with its stack and lets it continue to net/http's own per-connection recover
+			mws := []httpserver.HandlerFunc{func(rp *httpserver.RequestProcessor) {
+				defer func() {
+					if x := recover(); x != nil {
+						handlerPanic.CompareAndSwap(nil, fmt.Sprintf("panic in request handling (%s %s): %v\n%s",
+							rp.Request().Method, rp.Request().URL.Path, x, debug.Stack()))
+						panic(x)
+					}
+				}()
+				rp.Next()
+			}}
 			if c.Kind == "headers" {
 				mws = append(mws, headers.New(http.Header(c.Headers)))
 			}
@@ -496,18 +547,29 @@ func crashChild() {
 			return "norequest"
 		}
 		m, p := concreteRequest(c.Routes[0].Path)
-		req, err := http.NewRequest(m, "http://"+a+p, nil)
-		if err != nil {
-			return "badrequest"
+		paths := []string{p}
+		if len(c.Paths) > 0 {
+			paths = c.Paths
 		}
-		cl := &http.Client{Timeout: 3 * time.Second}
-		resp, err := cl.Do(req)
-		if err != nil {
-			return "reqerr"
+		var res []string
+		for _, p := range paths {
+			u := url.URL{Scheme: "http", Host: a, Path: p}
+			req, err := http.NewRequest(m, u.String(), nil)
+			if err != nil {
+				res = append(res, "badrequest")
+				continue
+			}
+			cl := &http.Client{Timeout: 3 * time.Second, Transport: &http.Transport{DisableKeepAlives: true}}
+			resp, err := cl.Do(req)
+			if err != nil {
+				res = append(res, "reqerr")
+				continue
+			}
+			io.Copy(io.Discard, resp.Body)
+			resp.Body.Close()
+			res = append(res, fmt.Sprint(resp.StatusCode))
 		}
-		io.Copy(io.Discard, resp.Body)
-		resp.Body.Close()
-		return fmt.Sprint(resp.StatusCode)
+		return strings.Join(res, ",")
 	}
 	reqRes := ""
 	if st == "Running" && c.Where == "construct" {
@@ -538,6 +600,10 @@ func crashChild() {
 	}
 	rerr = <-errc
 	switch {
+	case handlerPanic.Load() != nil:
+		hp := handlerPanic.Load().(string)
+		outcome("handler-panic %s", strings.ReplaceAll(firstLines(hp, 1), "\n", " "))
+		fmt.Fprintln(os.Stderr, hp)
 	case st != "Running" || st2 != "Running":
 		outcome("error-state after-run=%s after-reload=%s run=%v req=%s", st, st2, rerr, reqRes)
 	case rerr != nil:
